@@ -1254,4 +1254,71 @@ theorem secHdrOnly_inv (c : Cls) (enc : Enc) (tr : List Trans) (st : IStream) (h
       (hdrRead tr st hdrOff (shdrSize c)).2 (streamSizeOf tr st).2 isLazy idx).stype (Or.inl hg)
   simpa [secHdrOnly, secB0] using this
 
+/-! ### `segment_impl::load_data` as a pure function (no translation, input shorter than 2^63) -/
+
+theorem segRead_inrange (st : IStream) (off n : BitVec 64) (h0 : 0 ≤ off.toInt) (hn : 0 ≤ n.toInt)
+    (hr : off.toNat + n.toNat ≤ st.data.length) :
+    (segRead st off n).2 = slice st.data off.toNat n.toNat ∧ (segRead st off n).1.fail = false := by
+  have hoff := toInt_nonneg_toNat off h0
+  have hs : st.clear.seekg off.toInt = { st.clear with eof := false, pos := off.toNat } := by
+    rw [IStream.seekg_ok _ _ rfl h0 (by rw [hoff]; simp only [IStream.clear_data]; omega), hoff]
+  unfold segRead
+  rw [if_neg (by omega), hs, IStream.read_ok _ _ rfl (by simpa [IStream.clear] using hr)]
+  simp [IStream.clear]
+
+def segLoadDataPure (img : Bytes) (g : Seg) : Seg × Bool :=
+  if seg64_load_data_skip g.stype g.filesz then (g, true) else
+  if sec64_load_data_off_gt g.offset g.streamSize then ({ g with data := none }, false) else
+  if sec64_load_data_size_gt g.filesz g.streamSize g.offset then ({ g with data := none }, false) else
+  if sec64_load_data_sizet g.filesz then ({ g with data := none }, false) else
+  ({ g with data := some (slice img g.offset.toNat g.filesz.toNat ++ [0]), isLoaded := true }, true)
+
+theorem segLoadData_pure (c : Cls) (ls : LoadSt) (g : Seg) (img : Bytes) (hd : ls.st.data = img)
+    (hg : LoadedSeg [] g img) (hlen : img.length < 9223372036854775808) :
+    (segLoadData c [] ls g).2 = segLoadDataPure img g ∧ (segLoadData c [] ls g).1.st.fail = ls.st.fail := by
+  rw [segLoadData_eq]
+  unfold segLoadDataPure
+  simp only [dataOff_nil]
+  by_cases h0 : seg64_load_data_skip g.stype g.filesz = true
+  · simp only [h0, if_true]; exact ⟨trivial, trivial⟩
+  rw [if_neg h0, if_neg h0]
+  by_cases h1 : sec64_load_data_off_gt g.offset g.streamSize = true
+  · simp only [h1, if_true]; exact ⟨trivial, trivial⟩
+  rw [if_neg h1, if_neg h1]
+  by_cases h2 : sec64_load_data_size_gt g.filesz g.streamSize g.offset = true
+  · simp only [h2, if_true]; exact ⟨trivial, trivial⟩
+  rw [if_neg h2, if_neg h2]
+  by_cases h4 : sec64_load_data_sizet g.filesz = true
+  · simp only [h4, if_true]; exact ⟨trivial, trivial⟩
+  rw [if_neg h4, if_neg h4]
+  have hle := g_size_gt_false (by simpa using h2) (g_off_gt_false (by simpa using h1))
+  have hss : g.streamSize = BitVec.ofNat 64 img.length := by
+    rcases hg.ss with ⟨-, hss⟩ | ⟨-, hn⟩
+    · exact hss
+    · exact absurd (hn rfl).1 h0
+  rw [hss, toNat_ofNat_len (by omega)] at hle
+  obtain ⟨e1, e2⟩ := segRead_inrange ls.st g.offset g.filesz
+    (toInt_nonneg_of_lt (by omega)) (toInt_nonneg_of_lt (by omega)) (by rw [hd]; exact hle)
+  rw [if_pos (by simp [e2]), e1, hd]
+  refine ⟨rfl, ?_⟩
+  simp [mergeFlags, e2]
+
+theorem segLoadData_fail_mono (c : Cls) (tr : List Trans) (ls : LoadSt) (g : Seg) (h : ls.st.fail = true) :
+    (segLoadData c tr ls g).1.st.fail = true := by
+  rw [segLoadData_eq]
+  repeat' split
+  all_goals first | exact h | simp [mergeFlags, h]
+
+theorem segLoad_fail_mono (c : Cls) (enc : Enc) (tr : List Trans) (ls : LoadSt) (hdrOff : Int) (isLazy : Bool)
+    (h : ls.st.fail = true) : (segLoad c enc tr ls hdrOff isLazy).1.st.fail = true := by
+  rw [segLoad_eq]
+  have hf : (hdrRead tr ls.st hdrOff (phdrSize c)).1.fail = true := by
+    have h1 := streamSizeOf_fail tr ls.st h
+    have h2 := IStream.seekg_fail _ (trApply tr hdrOff) h1
+    have h3 : ((streamSizeOf tr ls.st).1.seekg (trApply tr hdrOff)).good = false := by simp [IStream.good, h2]
+    exact (IStream.read_not_good _ _ h3).2.1
+  split
+  · exact segLoadData_fail_mono c tr _ _ hf
+  · exact hf
+
 end ElfioVerif
